@@ -977,8 +977,9 @@ theorem C08_wf_has_pu_and_numa (d : Dump) (h : WF d) (t : Tree) (ht : treeOf d =
         REMOVE_MEMLESS (`p.rmExempt = false`); the protected object of the call's OWN kind exists when the allowed set is covered
         (`coverT`).  So: by nodeset without REMOVE_MEMLESS pu-level-deepest, by cpuset without REMOVE_CPULESS numa-exists follow from
         `WF d` alone; by cpuset pu-level-deepest and by nodeset numa-exists follow from `WF d` and `coverT`.
-    `_partial`: `coverT` is not derived from `WF d`, and under REMOVE_CPULESS / REMOVE_MEMLESS the object of the other kind that
-    survives (one whose cpuset / nodeset keeps an index, which exists because `inside allowed dropped` is refused) is not exhibited. -/
+    `_partial`: `coverT` is a hypothesis here (its CPU half is derived from `WF d` in C08_wf_cover_pu, its NUMA half is not), and under
+    REMOVE_CPULESS / REMOVE_MEMLESS the object of the other kind that survives is exhibited only in C08_restrict_other_kind_protected
+    (used by C08_restrict_from_wf_top_partial, which covers every flag word). -/
 theorem C08_restrict_from_wf_levels_partial (d : Dump) (h : WF d) (t : Tree) (ht : treeOf d = .ok t)
     (hf1 : filterOf d.filters tPU ≠ filterKeepStructure) (hf2 : filterOf d.filters tMACHINE ≠ filterKeepStructure)
     (s : CSet) (flags : Nat) (ex : RObj → Extra) :
